@@ -187,8 +187,41 @@ pub fn run(ctx: &Ctx, rep: &mut Report) {
             }
         }
     });
-    let _ = now_secs();
+    // the second belongs to the compile call even when the program is rendered later
+    par_cases(ctx, "late", ctx.pick(4, 32), rep, |i, rep| {
+        rep.evaluations += 1;
+        let case = format!("late:{}", i);
+        let ts = crate::gen::mk_time(i % 4, 3 + i);
+        let cmpn = lipe_find_parser::ast::Comparison::GreaterThan(ts);
+        let e = crate::gen::t(match i % 3 {
+            0 => lipe_find_parser::ast::Test::ModifyTime(cmpn),
+            1 => lipe_find_parser::ast::Test::AccessTime(cmpn),
+            _ => lipe_find_parser::ast::Test::ChangeTime(cmpn),
+        });
+        let r = crate::sut::guard(|| {
+            let t0 = now_secs();
+            let c = lipe_find_parser::compile(&e, &crate::sut::opts_default()).ok()?;
+            let t1 = now_secs();
+            std::thread::sleep(std::time::Duration::from_millis(1200));
+            Some((t0, t1, c.scheme("/d")))
+        });
+        match r {
+            Ok(Some((t0, t1, text))) => {
+                let toks: Vec<i128> = int_tokens(&text).into_iter().filter(|v| *v >= 1_000_000_000).collect();
+                if toks.is_empty() {
+                    rep.violation("C15:clock-missing", "a time test was compiled but no current-time constant appears in the program", &case, J::obj(vec![("program", J::s(&text))]));
+                } else if let Some(v) = toks.iter().find(|v| **v < t0 || **v > t1) {
+                    rep.violation("C15:clock-read-at-render-time", &format!("program rendered 1.2 s after compile() returned embeds second {} outside the compile window [{}, {}]", v, t0, t1), &case, J::obj(vec![("program", J::s(&text))]));
+                } else {
+                    rep.count("late_render_windows_checked");
+                }
+            }
+            Ok(None) => rep.count("late_not_compiled"),
+            Err(p) => rep.violation(&format!("C15:{}", p.sig()), &p.0, &case, J::Null),
+        }
+    });
     if ctx.only.is_none() {
+        rep.floor("late-render windows observed", rep.get("late_render_windows_checked") >= 3);
         rep.floor("clock windows observed", rep.get("clock_windows_checked") > 50);
         rep.floor("repeated compilations compared", rep.get("compilations_compared") > 500);
     }
